@@ -8,6 +8,7 @@ package server
 
 import (
 	"fmt"
+	"github.com/bio-routing/bio-rd/route"
 	"sort"
 	"strings"
 	"testing"
@@ -18,13 +19,50 @@ import (
 )
 
 type zvC20Msg struct {
-	Name     string `json:"name"`
-	Fam      int    `json:"family"` // 4 classic, 6 multiprotocol IPv6
-	Announce []int  `json:"announce"` // indices into the prefix table
+	Name     string   `json:"name"`
+	Fam      int      `json:"family"`   // 4 classic, 6 multiprotocol IPv6
+	Announce []int    `json:"announce"` // indices into the prefix table
 	AnnIDs   []uint32 `json:"announce_path_ids"`
-	Withdraw []int  `json:"withdraw"`
+	Withdraw []int    `json:"withdraw"`
 	WdIDs    []uint32 `json:"withdraw_path_ids"`
-	MED      uint32 `json:"med"`
+	MED      uint32   `json:"med"`
+	// Rich: the message also carries COMMUNITIES, LARGE_COMMUNITIES, ATOMIC_AGGREGATE, AGGREGATOR and an unknown
+	// transitive attribute: "the message's attributes" are more than next hop and MED
+	Rich bool `json:"rich_attributes,omitempty"`
+}
+
+const zvC20RichDigest = " comm=[4259840001 4259840002] lc=[(65000,1,2)] atomic=true aggr={65001 167772169} unk=[200:010203]"
+const zvC20PlainDigest = " comm=[] lc=[] atomic=false aggr=- unk=[]"
+
+// zvC20Extra renders the attributes of an installed path that the plain model value does not cover.
+func zvC20Extra(p *route.Path) string {
+	b := p.BGPPath
+	comm, lc, aggr, unk := "[]", "[]", "-", "[]"
+	if b.Communities != nil && len(*b.Communities) > 0 {
+		comm = fmt.Sprint([]uint32(*b.Communities))
+	}
+	if b.LargeCommunities != nil && len(*b.LargeCommunities) > 0 {
+		var x []string
+		for _, l := range *b.LargeCommunities {
+			x = append(x, fmt.Sprintf("(%d,%d,%d)", l.GlobalAdministrator, l.DataPart1, l.DataPart2))
+		}
+		lc = "[" + strings.Join(x, " ") + "]"
+	}
+	atomic := false
+	if b.BGPPathA != nil {
+		atomic = b.BGPPathA.AtomicAggregate
+		if b.BGPPathA.Aggregator != nil {
+			aggr = fmt.Sprintf("{%d %d}", b.BGPPathA.Aggregator.ASN, b.BGPPathA.Aggregator.Address)
+		}
+	}
+	if len(b.UnknownAttributes) > 0 {
+		var x []string
+		for _, u := range b.UnknownAttributes {
+			x = append(x, fmt.Sprintf("%d:%x", u.TypeCode, u.Value))
+		}
+		unk = "[" + strings.Join(x, " ") + "]"
+	}
+	return fmt.Sprintf(" comm=%s lc=%s atomic=%v aggr=%s unk=%s", comm, lc, atomic, aggr, unk)
 }
 
 var zvC20P4 = []zvwPrefix{zvR1, zvR2, {Len: 17, Addr: []byte{172, 16, 128, 0}}}
@@ -67,6 +105,11 @@ func zvC20Alphabet(addPath bool) []zvC20Msg {
 						}
 					}
 					ms = append(ms, m)
+					if med == 5 && len(set) >= 2 && (ids == nil || ids[0] != ids[1]) {
+						rm := m
+						rm.Rich = true
+						ms = append(ms, rm)
+					}
 				}
 			}
 		}
@@ -90,6 +133,9 @@ func zvC20Alphabet(addPath bool) []zvC20Msg {
 	}
 	for i := range ms {
 		ms[i].Name = fmt.Sprintf("m%02d:f%d+%v%v-%v%v/med%d", i, ms[i].Fam, ms[i].Announce, ms[i].AnnIDs, ms[i].Withdraw, ms[i].WdIDs, ms[i].MED)
+		if ms[i].Rich {
+			ms[i].Name += "/rich"
+		}
 	}
 	return ms
 }
@@ -114,6 +160,14 @@ func (m zvC20Msg) bytes(addPath bool) []byte {
 		return out
 	}
 	attrs := []zvwAttr{zvwOrigin(0), zvwASPath(true, zvRemoteAS)}
+	if m.Rich {
+		attrs = append(attrs,
+			zvwAttr{0xc0, 8, []byte{0xfd, 0xe8, 0, 1, 0xfd, 0xe8, 0, 2}},
+			zvwAttr{0xc0, 32, []byte{0, 0, 0xfd, 0xe8, 0, 0, 0, 1, 0, 0, 0, 2}},
+			zvwAttr{0x40, 6, nil},
+			zvwAttr{0xc0, 7, []byte{0, 0, 0xfd, 0xe9, 10, 0, 0, 9}},
+			zvwAttr{0xc0, 200, []byte{1, 2, 3}})
+	}
 	if m.Fam == 4 {
 		var a []zvwAttr
 		if len(m.Announce) > 0 {
@@ -155,7 +209,11 @@ func (m zvC20Msg) apply(model map[string]string, addPath bool, famConfigured map
 		if addPath {
 			id = m.AnnIDs[i]
 		}
-		model[fmt.Sprintf("%d %s#%d", m.Fam, zvC20PfxName(m.Fam, x), id)] = fmt.Sprintf("nh=%s med=%d", nh, m.MED)
+		extra := zvC20PlainDigest
+		if m.Rich {
+			extra = zvC20RichDigest
+		}
+		model[fmt.Sprintf("%d %s#%d", m.Fam, zvC20PfxName(m.Fam, x), id)] = fmt.Sprintf("nh=%s med=%d", nh, m.MED) + extra
 	}
 }
 
@@ -166,8 +224,8 @@ type zvC20Cfg struct {
 }
 
 type zvC20Case struct {
-	Cfg  string      `json:"config"`
-	Hist []zvC20Msg  `json:"messages"`
+	Cfg  string     `json:"config"`
+	Hist []zvC20Msg `json:"messages"`
 }
 
 func zvC20Observe(s *zvSess) map[string]string {
@@ -190,7 +248,7 @@ func zvC20Observe(s *zvSess) map[string]string {
 				if _, dup := m[k]; dup {
 					k += " (duplicate)"
 				}
-				m[k] = fmt.Sprintf("nh=%s med=%d", nh, med)
+				m[k] = fmt.Sprintf("nh=%s med=%d", nh, med) + zvC20Extra(p)
 			}
 		}
 	}
